@@ -34,6 +34,21 @@ def replay_schedule(rec, seed):
     h = rec['h']
     ex = xc.new_executor(w, from_file=(seed % 53 == 0))
     batch = h[0]['arg']
+    if batch and seed % 2 == 1:
+        # warm-up: the same queries once BEFORE the overrides are set - what was computed then must not leak into the replies
+        # that follow (the values under the overrides in force are independent of any earlier query)
+        for q in h[1:]:
+            try:
+                if q['q'] == 'get':
+                    xc.q_get(ex, pos[q['arg']], rng.randint(0, 2))
+                elif q['q'] == 'many':
+                    ex.get_cells([xc.mk_cell(pos[c], None, rng.randint(0, 2)) for c in q['arg']])
+                else:
+                    xc.q_sheet(ex, q['arg'], rng.random() < 0.5)
+            except repo.E2PyclException:
+                raise
+            except Exception:
+                pass
     if batch:
         ex.set_cells([xc.mk_cell(pos[c], v, rng.randint(0, 2)) for c, v in batch])
     sizes0 = xc.q_sizes(ex)
@@ -99,12 +114,14 @@ def gen(run, w):
                                'CONSTANT QLists <- McQLists'], workers=2, timeout=1500)
     recs = r.records
     run.exhaustive[f'query schedules <= {maxq} over 9 queries x 3 override sets'] = True
-    res = core.pmap(_job, [(rec, run.seed * 7919 + i) for i, rec in enumerate(recs)])
-    for rec, (ok, clause) in zip(recs, res):
+    # every schedule twice: cold (even seed) and after a warm-up run of the same queries before the overrides are set (odd seed)
+    recs = [r for r in recs for _ in (0, 1)]
+    res = core.pmap(_job, [(rec, (run.seed * 7919 + i // 2) * 2 + i % 2) for i, rec in enumerate(recs)])
+    for i, (rec, (ok, clause)) in enumerate(zip(recs, res)):
         if ok is None:
             raise core.MachineryError(clause)
         sched = [[q['q'], q['arg']] for q in rec['h'][1:]]
-        case = {'in': {'overrides': rec['h'][0]['arg'], 'schedule': sched}, 'kind': 'schedule', 'obs': clause or 'all replies ideal'}
+        case = {'in': {'overrides': rec['h'][0]['arg'], 'schedule': sched, 'warm_up': bool(i % 2)}, 'kind': 'schedule', 'obs': clause or 'all replies ideal'}
         run.judge(case, ok, clause=clause, nontrivial=len(sched) > 1, part='gen')
         run.traces_validated += 1
 
